@@ -32,6 +32,8 @@ type BBCase struct {
 	// Local: the server runs in local mode (a PIV tool on PATH, here a stand-in script); the waiting rules
 	// are the same in both modes
 	Local bool `json:",omitempty"`
+	// DropOne: the first client waiter's connection is closed while everybody waits
+	DropOne bool `json:",omitempty"`
 }
 
 var (
@@ -135,12 +137,44 @@ func execBB(c BBCase) (vh.Outcome, error) {
 			default:
 			}
 		}
+		dropped := -1
+		if c.DropOne {
+			// one waiting client goes away (its connection ends) while it waits: no request was received,
+			// the others keep waiting
+			for i, kind := range c.Waiters {
+				if kind == "client" {
+					dropped = i
+					break
+				}
+			}
+			if dropped >= 0 {
+				clientConns[dropped].c1.Close()
+				time.Sleep(400 * time.Millisecond)
+				for i, d := range dones {
+					if i == dropped {
+						continue
+					}
+					select {
+					case werr := <-d:
+						return out, vh.Errf("round %d: the connection of waiting client %d ended; waiter %d (%s) on the same code %d returned (%v) although no request was received", round, dropped, i, c.Waiters[i], c.Code, werr)
+					default:
+					}
+				}
+				out.Classes = append(out.Classes, "a-waiting-client-went-away")
+			}
+		}
 		if e := send(c.Other); e != nil {
 			return out, vh.Errf("round %d: request %d failed: %v", round, c.Other, e)
 		}
 		time.Sleep(50 * time.Millisecond)
 		returned := make([]bool, len(dones))
+		if dropped >= 0 {
+			returned[dropped] = true // gone: its call ends with a connection error, whenever
+		}
 		for i, d := range dones {
+			if i == dropped {
+				continue
+			}
 			select {
 			case werr := <-d:
 				returned[i] = true
@@ -189,12 +223,13 @@ func execBB(c BBCase) (vh.Outcome, error) {
 
 func TestC20Blackbox(t *testing.T) {
 	vh.Run(t, vh.Spec[BBCase]{Property: "C20", Name: "TestC20Blackbox", Journal: true,
-		Rule: "black-box rounds on one real NewServer (remote mode, or - a third of the cases - local mode with a stand-in PIV tool on PATH), nothing read from inside the server: 1..20 waiters (direct or through their own client connection; beyond 4 mostly through client connections, each an outstanding request of the server) on one code 0..39 (not 35) get 150 ms to register (client waiters optionally after other extended calls on their connection; in a sixth of the cases everybody then stays blocked for 1.2 / 3.5 / 5.5 s without any request, during which nobody may return); a request with another code (not 35) must release none of them; a request with their code must release all of them - a waiter that returns only after the request was repeated (up to 4 times) may have registered late and is not judged, one that never returns is a lost wake-up; 1..3 such rounds on the same server (state left by an earlier round matters). Non-trivial: >= 2 waiters.",
+		Rule: "black-box rounds on one real NewServer (remote mode, or - a third of the cases - local mode with a stand-in PIV tool on PATH), nothing read from inside the server: 1..20 waiters (direct or through their own client connection; beyond 4 mostly through client connections, each an outstanding request of the server) on one code 0..39 (not 35) get 150 ms to register (client waiters optionally after other extended calls on their connection; in a sixth of the cases everybody then stays blocked for 1.2 / 3.5 / 5.5 s without any request, during which nobody may return); in a third of the cases the first waiting client's connection is then closed, which must release nobody else; a request with another code (not 35) must release none of them; a request with their code must release all of them - a waiter that returns only after the request was repeated (up to 4 times) may have registered late and is not judged, one that never returns is a lost wake-up; 1..3 such rounds on the same server (state left by an earlier round matters). Non-trivial: >= 2 waiters.",
 		Gen: func(t *rapid.T) BBCase {
 			c := BBCase{Code: rapid.SampledFrom([]int{0, 11, 13, 18, 19, 31, 32, 39, 1, 17}).Draw(t, "code"), Rounds: rapid.IntRange(1, 3).Draw(t, "rounds")}
 			c.Other = rapid.SampledFrom([]int{11, 19, 1, 32, 200, 13}).Draw(t, "other")
 			c.Warmup = rapid.Bool().Draw(t, "warmup")
 			c.Local = rapid.IntRange(0, 2).Draw(t, "local") == 1
+			c.DropOne = rapid.IntRange(0, 2).Draw(t, "dropOne") == 1
 			if rapid.IntRange(0, 5).Draw(t, "hold") == 2 {
 				c.HoldMS, c.Rounds = rapid.SampledFrom([]int{1200, 3500, 5500}).Draw(t, "holdMS"), 1
 			}
